@@ -134,6 +134,26 @@ CLAIMS = {
              "response is what devices see and what is sent next. Bounded in the number of datagrams; the cycle "
              "loop of SyncGroupBase.run is not under contract yet.",
         note=PYVC_TRUST + "; devices under their own contracts; bounded in datagram count"),
+    "C03": dict(
+        engine="bpfvc", category="other", design_ref="DESIGN.md section 4 C03 (Stage A)",
+        technique="contract-based deductive verification of generated constructs: branch-marker postconditions on "
+                  "the assembled bytes of every enumerated with/Else construct, all inputs symbolic",
+        text="Stage A: about 1100 (quick) constructs - the six comparisons over registers, local variables of "
+             "several formats and constants, bit tests with &, single- and multi-bit fields, ~, &/| combinations of "
+             "depth <= 2, with and without Else, nested and sequenced - are built with the real DSL; each is proved "
+             "for all inputs within the property's range precondition: body iff true, Else iff false, execution "
+             "continues. One region (unsigned 8-byte left operand ordered against a signed operand of at most 4 "
+             "bytes) violates the property on the real bytes and is a recorded finding.",
+        note=BPFVC_TRUST + "; bounded in program shape; 32-bit register views excluded (C01 finding)"),
+    "C25": dict(
+        engine="pyvc", category="proof", design_ref="DESIGN.md section 4 C25",
+        technique="contract-based deductive verification: the real source of EtherCat.find_free_address / "
+                  "assigned_address with a loop invariant under a rely condition for concurrent callers, z3",
+        text="For any used-address set, any random choices and any bus answers: the returned address lies in the "
+             "configured range, was not in the used set when the call started, is recorded in the set before the "
+             "coroutine first awaits (so no concurrent caller can pick it: obligation at the probe), the set only "
+             "grows, and no terminal answered at the address. Termination of the retry loop is not claimed.",
+        note=PYVC_TRUST + "; bus contract; rely: concurrent tasks only add addresses; randint returns any value in range"),
 }
 
 NA = {
